@@ -35,6 +35,7 @@ class Env:
         self.max_inflight = 0
         self.received: list[tuple[str, str, int]] = []  # (fnid, param, id(obj)) when identity tracking is on
         self.track_identity = False
+        self.funcs: dict[str, Any] = {}
 
     def err(self, tag: str) -> UserErr:
         if tag not in self.errs:
@@ -188,7 +189,11 @@ def build_node(spec: dict, gi: int, graphs: list[Any], env: Env, *, async_bodies
     emits = _tuple_or_none(spec.get("emits", []))
     wait_for = _tuple_or_none(spec.get("waitFor", []))
     if kind == "fn":
-        func = make_function(spec, fnid, env, is_async=async_bodies)
+        if spec.get("sameFuncAs"):
+            func = env.funcs[f"{gi}:{spec['sameFuncAs']}"]      # two nodes over ONE function object
+        else:
+            func = make_function(spec, fnid, env, is_async=async_bodies)
+            env.funcs[fnid] = func
         return FunctionNode(
             func,
             name=spec["name"],
@@ -226,7 +231,7 @@ def build_node(spec: dict, gi: int, graphs: list[Any], env: Env, *, async_bodies
             wait_for=wait_for,
         )(func)
     if kind == "interrupt":
-        func = make_function(spec, fnid, env, is_async=False)
+        func = make_function(spec, fnid, env, is_async=bool(spec.get("asyncHandler")) and async_bodies)
         outs = spec.get("dataOuts", [])
         return interrupt(
             output_name=outs[0] if len(outs) == 1 else tuple(outs),
